@@ -52,7 +52,9 @@ def exact_moments(P):
 
 def run(R):
     import dreye
+    from dreye import _verif
     from scipy.spatial import ConvexHull
+    qmc_events = []   # (case key, case, signature, hook events, requested n): row blocks / simplex indices of the QMC branch vs the Lean model
     n = 36 if R.tier == "quick" else 400
     R.rule = ("point clouds in 2-4 dimensions (random, with many interior points, strongly skewed, nearly collinear; half of them "
               "with whole-number coordinates) handed in as float64 / integer dtype (whole-number clouds) / Fortran-ordered / "
@@ -115,11 +117,14 @@ def run(R):
         for key in ("cloud_kind", "via"):
             R.count("%s:%s" % (key, c[key]))
         R.count("engine:%s" % engine); R.count("n:%d" % ns); R.count("dim:%d" % d); R.count("l1:%s" % (l1 is not None))
+        _verif.drain()
         if via == "function":
             # the cloud is passed as an argument of call(): the frame condition (argument unchanged) is checked
             st, out = call(lambda Pg_: (fn(), fn()), Pg)
         else:
             st, out = call(lambda: (fn(), fn()))
+        if engine is not None:
+            qmc_events.append((k, dict(c), "C13:%s:qmc" % via, [e for e in _verif.drain() if e["event"] in ("qmc_block", "qmc_plan")], ns))
         stref, Sref = call(Pref) if Pref is not None else (None, None)
         nontriv = (k,) if (ns >= 100 and (ckind == "interior" or via == "estimator" or len(P) >= d + 3)) else None
         R.case(c, nontriv, sample=(nontriv is not None and ns <= 128))
@@ -179,3 +184,33 @@ def run(R):
                 if abs(p_s - p_ref) > 6 * sig_:
                     R.failB(dict(c, fraction_samples=p_s, fraction_volume=p_ref), "a half-space holding %.4f of the hull's volume received %.4f of the samples (%.1f sigma)" % (p_ref, p_s, abs(p_s - p_ref) / sig_), sig + ":uniform-halfspace")
                     break
+
+    # ---- quasi-Monte-Carlo branch: the bookkeeping recorded by the hook against the model (Props/C13Blocks.lean) ----------------
+    asked = []
+    for k, c, sig, events, ns in qmc_events:
+        plans = []; blocks = []
+        for e in events:
+            if e["event"] == "qmc_block":
+                blocks.append((e["start"], e["stop"]))
+            else:
+                plans.append((e, blocks)); blocks = []
+        R.count("qmc-plans-recorded:%d" % len(plans))
+        for j, (e, bl) in enumerate(plans):
+            rid = "q%s_%d" % (k, j)
+            R.driver.ask(rid, "qmcplan", len(e["counts"]), *e["counts"])
+            asked.append((rid, c, sig, e, bl, ns))
+    R.driver.run()
+    for rid, c, sig, e, bl, ns in asked:
+        t = R.driver.get(rid)
+        nb = t.nat(); mblocks = [(t.nat(), t.nat()) for _ in range(nb)]
+        assert t.tok() == "|"
+        ni = t.nat(); midx = [t.nat() for _ in range(ni)]
+        ok = True
+        if sum(e["counts"]) != ns:
+            R.failB(dict(c, counts=e["counts"]), "the per-simplex counts of the QMC branch sum to %d, %d samples were requested" % (sum(e["counts"]), ns), sig + ":qmc-counts"); ok = False
+        if [tuple(b) for b in bl] != mblocks:
+            R.failB(dict(c, counts=e["counts"], blocks_written=bl, blocks_model=mblocks),
+                    "the row blocks written by the QMC loop %s are not the model's %s: rows are overwritten or left empty" % (bl[:6], mblocks[:6]), sig + ":qmc-blocks"); ok = False
+        if list(e["sample_indices"]) != midx:
+            R.failB(dict(c, counts=e["counts"]), "the simplex index of the rows is not np.repeat(arange, counts)", sig + ":qmc-index"); ok = False
+        R.cert(ok)
